@@ -75,7 +75,7 @@ BAD_ARGV = [
     ["--print_config", "--i=x"], ["--print_config", "--model=BadDefault"], ["--model=SubB", "--cfg", '{"model": {"init_args": {"zz": 1}}}'], ["--dc.inner.color=nope"], ["--l+=x"], ["--d.k=x"],
     ["--model=SubB", "--cfg", "{"], ["--opt=SubA", "--cfg", '{"zz": 1}'], ["--model_ema=SubA", "--model_ema.zz=1"], ["--odc.x=bad"], ["--model=SubReq"],
 ]
-EXIT0_ARGV = [["--cb.help=SubA"], ["--cb.help", "SubB"], ["--help"], ["--print_config"], ["--print_config=skip_default"], ["--model.help"], ["--model.help", "SubB"], ["--opt.help=SubA"], ["--print_config", "--model=SubB"], ["--print_config=comments"]]
+EXIT0_ARGV = [["--print_shtab=bash"], ["--cb.help=SubA"], ["--cb.help", "SubB"], ["--help"], ["--print_config"], ["--print_config=skip_default"], ["--model.help"], ["--model.help", "SubB"], ["--opt.help=SubA"], ["--print_config", "--model=SubB"], ["--print_config=comments"]]
 SUB_ARGV = [["s1"], ["s1", "--o=5"], ["s2", "--q=z"], ["s1", "--m=SubB"], ["s1", "--print_config"], ["s1", "--o=x"], ["s1", "--print_config", "--o=x"], ["s1", "--help"], ["s1", "--cfg", '{"o": 7}'], ["s1", "--m=BadDefault"], ["--i=2", "s2"]]
 OBJECTS = [
     {"i": 4}, {"model": {"init_args": {"a": 8}}}, {"opt": {"init_args": {"a": 2}}}, {"model": {"class_path": "vf.fixtures.zoo.SubB", "init_args": {"c": 0.5}}}, {"dc": {"count": 7}}, {"odc": {"x": 5}},
@@ -284,6 +284,8 @@ def step_kind(step, o):
     op = step[0]
     if op == "parse_args":
         a = " ".join(step[1])
+        if "--print_shtab" in a:
+            return "print_shtab"
         if "--print_config" in a:
             return "print_config" + ("-fail" if not (o.kind == "exit" and o.code == 0) else "")
         if "help" in a:
